@@ -1,5 +1,5 @@
 SPECIFICATION Spec
-CONSTANTS Configs <- CfgTiny AddProgs <- P21 NClosers = 1 AllowCancel = FALSE ConsKinds <- Both MaxNow = 4
+CONSTANTS Configs <- CfgCap1 AddProgs <- P11 NClosers = 0 AllowCancel = FALSE ConsKinds <- Slow MaxNow = 3
   AdvIdleOnly = FALSE UseMonitor = TRUE CloseFix = TRUE Variant = "ok"
 INVARIANTS MonitorOK NoWedge SignalsLeAdds WaitGroupExact CloseWaited NoLostAdd TypeOK
 CHECK_DEADLOCK FALSE
